@@ -42,6 +42,7 @@ DOCS = [
     "subscription { ev @include(if: true) { msg } }",
     "subscription { ev { __typename msg } }",
     "subscription { ev { fromroot id } }",
+    "subscription { ev { msg nn id } }",
 ]
 
 
@@ -55,10 +56,12 @@ def payloads():
         ("ev_null", lambda i: {"ev": None}),
         ("raising", lambda i: {"ev": {"id": boom, "msg": boom, "fromroot": boom, "nn": 1, "sub": None, "echo": gdata.echo}}),
         ("none", lambda i: None),
+        # a non-null field that fails at once next to a sibling that fails later (asynchronously, when the resolver is asynchronous)
+        ("nn_null_msg_raising", lambda i: {"ev": {"id": f"e{i}", "msg": boom, "fromroot": f"m{i}", "nn": None, "sub": None, "echo": gdata.echo}}),
     ]
 
 
-SOURCE_KINDS = ["agen", "iter_aclose", "iter_plain", "awaitable_agen", "iter_aclose_raises", "iterable_fresh"]
+SOURCE_KINDS = ["agen", "iter_aclose", "iter_plain", "awaitable_agen", "iter_aclose_raises", "iterable_fresh", "iter_aclose_truthy"]
 CREATION_FAILURES = ["raises", "async_raises", "non_iterable", "returns_exception", "unknown_field", "bad_variable", "awaitable_non_iterable"]
 
 
@@ -133,6 +136,11 @@ def scenario_map(c, schema, doc, text, source_kind, tier):
                 closed.append("aclose")
                 raise ConnectionError("closing the source failed too")
 
+        class ItCloseTruthy(It):
+            async def aclose(self):
+                closed.append("aclose")
+                return True  # e.g. "was open": must not be taken for "the pending exception is handled"
+
         class IterableFresh:
             """Not its own iterator: every __aiter__() call starts a new iteration from the first event."""
 
@@ -148,6 +156,8 @@ def scenario_map(c, schema, doc, text, source_kind, tier):
                 return ItClose()
             if source_kind == "iter_aclose_raises":
                 return ItCloseRaises()
+            if source_kind == "iter_aclose_truthy":
+                return ItCloseTruthy()
             return It()
 
         def subscribe_ev(_root, _info, **_args):
@@ -163,6 +173,9 @@ def scenario_map(c, schema, doc, text, source_kind, tier):
                 # a resolver that looks at the event through info.root_value must see THIS event
                 rv = info.root_value
                 v = rv["ev"].get("fromroot") if isinstance(rv, dict) and isinstance(rv.get("ev"), dict) else None
+            if async_res and info.field_name == "msg" and callable(v):
+                # fails, but only when the outside world gets round to it
+                return w.gate(f"msg!@{'.'.join(map(str, info.path.as_list()))}", error=gdata.Boom("event resolver failed"), kind="res")
             if callable(v):
                 v = v(info.path.as_list(), args)
             if async_res and info.field_name == "msg":
@@ -227,6 +240,15 @@ def scenario_map(c, schema, doc, text, source_kind, tier):
             w.drain()
             if t.exception() is not None:
                 status = "raised:" + repr(t.exception())
+            # the outside world completes what it had started (a resolver awaitable that an event's execution abandoned after a
+            # sibling failed belongs to the outside world until it is completed)
+            for _ in range(20):
+                og = [g for g in w.open_gates() if g.kind == "res"]
+                if not og:
+                    break
+                trace.append("late:" + og[0].label)
+                og[0].release()
+                w.drain()
         except (Hang, Livelock) as e:
             status = "hang:" + str(e)
         late = [json.dumps(p.formatted, default=repr) for p in results]
